@@ -46,7 +46,72 @@ pub mod os {
 }
 pub mod collections {
     use vstd::prelude::*;
-    pub use ::std::collections::HashMap;
+    /// std::collections::HashMap.  ASSUMED contracts: the map is viewed as Map<K, V> over the
+    /// keys' spec equality; iteration order is unspecified (any sequence whose elements are exactly
+    /// the map's values / pairs, each once)
+    #[verifier::external_body]
+    #[verifier::reject_recursive_types(K)]
+    #[verifier::reject_recursive_types(V)]
+    pub struct HashMap<K, V> { k: Vec<K>, v: Vec<V> }
+    impl<K, V> View for HashMap<K, V> { type V = Map<K, V>; uninterp spec fn view(&self) -> Map<K, V>; }
+    #[verifier::external_body]
+    #[verifier::reject_recursive_types(K)]
+    #[verifier::reject_recursive_types(V)]
+    pub struct Entry<'a, K, V> { m: &'a mut HashMap<K, V>, k: K }
+    impl<K, V> HashMap<K, V> {
+        #[verifier::external_body]
+        pub fn new() -> (r: Self) ensures r@ == Map::<K, V>::empty() { unimplemented!() }
+        #[verifier::external_body]
+        pub fn with_capacity(n: usize) -> (r: Self) ensures r@ == Map::<K, V>::empty() { unimplemented!() }
+        #[verifier::external_body]
+        pub fn insert(&mut self, k: K, v: V) -> (r: Option<V>)
+            ensures final(self)@ == old(self)@.insert(k, v), r == (if old(self)@.contains_key(k) { Some(old(self)@[k]) } else { None::<V> })
+        { unimplemented!() }
+        /// the borrowed form of the key is not related to K here: nothing is known about which
+        /// entry is found, only that it is one of the map's values
+        #[verifier::external_body]
+        pub fn get<Q: ?Sized>(&self, k: &Q) -> (r: Option<&V>)
+            ensures r is Some ==> exists|kk: K| #[trigger] self@.contains_key(kk) && self@[kk] == *r->Some_0
+        { unimplemented!() }
+        #[verifier::external_body]
+        pub fn contains_key<Q: ?Sized>(&self, k: &Q) -> (r: bool) { unimplemented!() }
+        #[verifier::external_body]
+        pub fn remove<Q: ?Sized>(&mut self, k: &Q) -> (r: Option<V>)
+            ensures final(self)@.submap_of(old(self)@)
+        { unimplemented!() }
+        #[verifier::external_body]
+        pub fn len(&self) -> (r: usize) { unimplemented!() }
+        #[verifier::external_body]
+        pub fn is_empty(&self) -> (r: bool) { unimplemented!() }
+        #[verifier::external_body]
+        pub fn entry(&mut self, k: K) -> (r: Entry<'_, K, V>) { unimplemented!() }
+        #[verifier::external_body]
+        pub fn into_values(self) -> (r: crate::shims::iter::Iter<V>)
+            ensures !r@.endless,
+                forall|i: int| 0 <= i < r@.items.len() ==> exists|k: K| #[trigger] self@.contains_key(k) && self@[k] == #[trigger] r@.items[i],
+                forall|k: K| #[trigger] self@.contains_key(k) ==> exists|i: int| 0 <= i < r@.items.len() && #[trigger] r@.items[i] == self@[k],
+        { unimplemented!() }
+        #[verifier::external_body]
+        pub fn values(&self) -> (r: crate::shims::iter::Iter<&V>) ensures !r@.endless { unimplemented!() }
+        #[verifier::external_body]
+        pub fn keys(&self) -> (r: crate::shims::iter::Iter<&K>) ensures !r@.endless { unimplemented!() }
+        #[verifier::external_body]
+        pub fn into_keys(self) -> (r: crate::shims::iter::Iter<K>) ensures !r@.endless { unimplemented!() }
+    }
+    impl<'a, K, V> Entry<'a, K, V> {
+        #[verifier::external_body]
+        pub fn or_insert_with<F: FnOnce() -> V>(self, f: F) -> (r: &'a mut V) requires call_requires(f, ()) { unimplemented!() }
+        #[verifier::external_body]
+        pub fn or_insert(self, v: V) -> (r: &'a mut V) { unimplemented!() }
+    }
+    impl<K, V> crate::shims::iter::IntoIterShim<(K, V)> for HashMap<K, V> {
+        #[verifier::external_body]
+        fn into_iter_(self) -> (r: crate::shims::iter::Iter<(K, V)>) ensures !r@.endless { unimplemented!() }
+    }
+    impl<K, V> crate::shims::iter::ToIter<(K, V)> for HashMap<K, V> {
+        #[verifier::external_body]
+        fn to_iter(self) -> (r: crate::shims::iter::Iter<(K, V)>) ensures !r@.endless { unimplemented!() }
+    }
     /// ASSUMED: a HashSet collected from an iterator keeps the FIRST of any two elements
     /// that are equal under the element's `PartialEq`; its iteration order is unspecified.
     #[verifier::external_body]
